@@ -11,12 +11,20 @@
    was read at its positions and, nucleotide by nucleotide, the record of the base sequence it
    flattens to (complemented where starred), every structure's record joins its strands.  The model
    design_results is tied to Convert.process_results / Convert.output by the correspondence.
-   NOT proved: the composition of the two sides through the compiler's emission (the records of
-   the PIL names are the records finish looks up under the component's prefixed names); that is
-   exercised end to end (in-process and through the three command-line tools). *)
+   Composed at component level (C06_compiled_design_finishes, C06_compiled_component_end_to_end, strand
+   layout): for every component the compiler accepts, its emitted specification is accepted by the
+   designer's loader (ShapeProofs, CrossProofs), the designer's flattening of every strand is the
+   component's own flattening into base nucleotides (ComposeProofs, through the C01 re-reading
+   theorems), and for every designed string that fits the arrays the records written by the designer
+   satisfy the hypotheses of the finish-side theorem - so finishing against the compiled component
+   succeeds (EndToEnd), and by C06_concatenations its result has every strand and super-sequence the
+   concatenation of its base sequences' values.  Hypothesis: the record names are distinct (no sequence
+   name ends in '*'; a structure and a sequence never share a name since the D13 repair).
+   NOT proved: the same composition through nested systems and the saved state (.save), and the
+   structure layout; exercised end to end (in-process and through the three command-line tools). *)
 From Coq Require Import List String Ascii Arith Bool.
-From PC Require Import Base.Codes Comp.Syntax Comp.Compile Sys.System Finish.Apply Finish.ApplyProofs
-  Design.Designer Design.TemplateProofs Design.DGraph Design.DenoteGraph Design.DenoteTie Design.DenoteSat Design.Results Design.ResultsProofs Design.Loaded.
+From PC Require Import Base.Codes Comp.Syntax Comp.Compile Comp.Denote Comp.EmitProofs Sys.System Finish.Apply Finish.ApplyProofs Design.ShapeProofs Design.ComposeProofs
+  Design.Designer Design.TemplateProofs Design.DGraph Design.DenoteGraph Design.DenoteTie Design.DenoteSat Design.Results Design.ResultsProofs Design.Loaded Design.CrossProofs Design.EndToEnd.
 Import ListNotations.
 
 Theorem C06_finished_bases_consistent_partial : forall t prefix bs vals, base_values t prefix bs = OK vals ->
@@ -99,3 +107,41 @@ Theorem C06_loaded_designed_string_flows : forall (ls : list pline) (p : pspec) 
        In (sn, join_plus (map (fun n => match afind (r_strands a) n with Some v => v | None => [] end) names)) recs).
 Proof. exact loaded_design_results_ok. Qed.
 Print Assumptions C06_loaded_designed_string_flows.
+
+(* across the stages: every compiled component whose constraint strings are nucleotide codes is accepted by the
+   designer's loader, and constraint generation (strand layout) then reports over-constraint or returns arrays *)
+Theorem C06_compiled_component_designs : forall ctr prefix d body c ctr', compile_comp ctr prefix d body = OK (c, ctr') ->
+  (forall n b, In (n, b) (c_bases c) -> valid_template (b_const b) = true) ->
+  (exists p, load_spec (emit_comp c) pspec0 = OK p) /\
+  (design_arrays (emit_comp c) false = DOver \/ exists e w s, design_arrays (emit_comp c) false = DOk e w s).
+Proof. exact compiled_component_designs. Qed.
+Print Assumptions C06_compiled_component_designs.
+
+(* composed, component level: compile -> emit -> load -> arrays -> any fitting string -> records -> finish succeeds *)
+Theorem C06_compiled_design_finishes : forall ctr prefix d body c ctr' p lay g e w s nts,
+  compile_comp ctr prefix d body = OK (c, ctr') ->
+  load_spec (emit_comp c) pspec0 = OK p -> seed p false = OK (lay, g) -> get_constraints p false = DOk e w s -> fits nts e w ->
+  exists a recs, process_results p lay nts = OK a /\ output_records p a = OK recs /\
+    (NoDup (map fst recs) -> exists f, apply_comp (table_of recs) c = OK f).
+Proof. exact compiled_design_finishes. Qed.
+Print Assumptions C06_compiled_design_finishes.
+
+Theorem C06_compiled_component_end_to_end : forall ctr prefix d body c ctr',
+  compile_comp ctr prefix d body = OK (c, ctr') ->
+  (forall n b, In (n, b) (c_bases c) -> valid_template (b_const b) = true) ->
+  exists p lay g, load_spec (emit_comp c) pspec0 = OK p /\ seed p false = OK (lay, g) /\
+    (get_constraints p false = DOver \/
+     exists e w s, get_constraints p false = DOk e w s /\
+       forall nts, fits nts e w ->
+         exists a recs, process_results p lay nts = OK a /\ output_records p a = OK recs /\
+           (NoDup (map fst recs) -> exists f, apply_comp (table_of recs) c = OK f)).
+Proof. exact compiled_component_end_to_end. Qed.
+Print Assumptions C06_compiled_component_end_to_end.
+
+(* the designer's flattening of a strand of the loaded specification is the component's own flattening *)
+Theorem C06_strand_flattening : forall c, WF c -> forall p, load_spec (emit_comp c) pspec0 = OK p ->
+  forall n t, In (n, t) (c_strands c) ->
+  exists l, In (c_prefix c +++ n, (classify p (emit_items c (s_seqs (t_sup t))), l, t_dummy t)) (p_strands p) /\
+            flat_map (ref_c p (ctbl p)) (classify p (emit_items c (s_seqs (t_sup t)))) = map (cvn p) (flatB c (s_base (t_sup t))).
+Proof. exact strand_flattening. Qed.
+Print Assumptions C06_strand_flattening.
